@@ -99,18 +99,18 @@ Fixpoint labels_of_toks (ts : list (list Byte.byte)) : option (list L) :=
   end.
 End Tok.
 
-Definition ptrace (h : hexs) : option (list label) :=
+(* the literal comes in chunks (cut at label boundaries) so that no single string is deep enough
+   to exhaust coqc's stack *)
+Definition ptrace (hs : list hexs) : option (list label) :=
   labels_of_toks (fun pl => if is_hex pl then Some (hxl pl) else None)
     LTick LReply LDrain LClose (fun d p => LD d (Write p)) (fun d p => LD d (Read p)) (fun d p => LD d (Deliver p))
     (fun d => LD d Shutdown) (fun d => LD d ReadEOF) (fun d => LD d CloseWrite) (fun d => LD d Abort)
-    (toks (of_hex h) []).
-Arguments ptrace h%hex.
-Definition patrace (h : hexs) : option (list alabel) :=
+    (toks (flat_map of_hex hs) []).
+Definition patrace (hs : list hexs) : option (list alabel) :=
   labels_of_toks (fun pl => match pl with [] => None | _ => dec pl 0 end)
     ATick AReply ADrain AClose (fun d p => AD d (AWr p)) (fun d p => AD d (ARd p)) (fun d p => AD d (ADel p))
     (fun d => AD d AShut) (fun d => AD d AREOF) (fun d => AD d ACW) (fun d => AD d AAb)
-    (toks (of_hex h) []).
-Arguments patrace h%hex.
+    (toks (flat_map of_hex hs) []).
 
 Fixpoint bad_from {A} (f : A -> bool) (i : N) (l : list A) : list N :=
   match l with
@@ -124,7 +124,7 @@ Definition drain_rereads : bool := drain_peeks_only && up_copier_reads_bufio.
 Definition tables_shape (grace : Z) : shape :=
   mkShape copy_buf_size grace tunnel_drain_first drain_rereads
           (copier_closewrite_after_copy && closewriter_calls_closewrite) bicopy_waits_all
-          closes_upstream_after_tunnel closes_client_after_tunnel.
+          closes_upstream_after_tunnel closes_client_after_tunnel tunnel_clears_read_deadline.
 
 Definition implb (a c : bool) : bool := negb a || c.
 
